@@ -108,6 +108,89 @@ class ScriptedConsumer:
             self.producer.resumeProducing()
 
 
+class PassiveConsumer:
+    """IConsumer that only records; pause / resume / stop are applied from outside write() by the harness"""
+
+    def __init__(self):
+        from zope.interface import directlyProvides
+        from twisted.internet.interfaces import IConsumer
+        directlyProvides(self, IConsumer)
+        self.chunks = []
+        self.producer = None
+        self.unregistered = False
+        self.stopped = False
+        self.paused = False
+        self.actions = 0
+        self.result = None
+
+    def registerProducer(self, p, streaming):
+        self.producer = p
+
+    def unregisterProducer(self):
+        self.unregistered = True
+
+    def write(self, data):
+        self.chunks.append(data)
+
+    def live(self):
+        return self.producer is not None and not self.unregistered and not self.stopped and self.result is None
+
+    def act(self, what):
+        if not self.live():
+            return
+        if what == "pause" and not self.paused:
+            self.paused = True
+            self.actions += 1
+            self.producer.pauseProducing()
+        elif what == "resume" and self.paused:
+            self.paused = False
+            self.actions += 1
+            self.producer.resumeProducing()
+        elif what == "stop":
+            self.stopped = True
+            self.actions += 1
+            self.producer.stopProducing()
+
+
+def drive(rt, consumers, schedule, max_steps=400000, horizon=4000.0):
+    """Pump the runtime one scheduler step at a time and apply `schedule` = [(step, reader, action)] when the step
+    counter reaches each entry (immediately if the system goes quiet first).  Ends when every reader has a result;
+    returns False if readers are still unfinished after the schedule is exhausted, nothing is deliverable and the
+    virtual clock has been advanced past `horizon` seconds (storage crawlers re-arm timers forever, so quiescence
+    alone never happens)."""
+    schedule = sorted(schedule, key=lambda a: a[0])
+    steps = 0
+    t_end = None
+    while True:
+        while schedule and schedule[0][0] <= steps:
+            _, j, what = schedule.pop(0)
+            consumers[j].act(what)
+        if all(c.result is not None for c in consumers) and not schedule:
+            rt.settle()
+            return True
+        steps += 1
+        if steps > max_steps:
+            return False
+        if rt.step():
+            continue
+        if schedule:                       # quiet: bring the next scripted action forward
+            steps = schedule[0][0]
+            continue
+        if any(c.paused and c.live() for c in consumers):
+            for c in consumers:            # never leave a live reader paused forever
+                c.act("resume")
+            continue
+        calls = rt.clock.getDelayedCalls()
+        if not calls:
+            return False
+        if t_end is None:
+            t_end = rt.clock.seconds() + horizon
+        nxt = min(cl.getTime() for cl in calls)
+        if nxt > t_end:
+            return False
+        rt.clock.advance(max(0, nxt - rt.clock.seconds()))
+
+
 def model_events(m):
     """'3:r,3:10,4:7;HEX' -> (segnums, chunk lens, hex)"""
     ev, _, out = m.partition(";")
@@ -355,6 +438,70 @@ def run_reads(ctx):
                         ctx.case(("C", fi, ci, j, off, sz, repr(sc), seed) if want else None)
                     ctx.count("concurrent:readers=%d" % m)
                     ctx.count("concurrent:script-actions", sum(cj.actions for cj in cons))
+                # ---------------- 1-4 reads whose pause / resume / stop come from OUTSIDE write(), at arbitrary scheduler steps
+                for ei in range(ctx.budget(16, 80)):
+                    m = rng.randrange(1, 5)
+                    use_warm = rng.random() < 0.4
+                    node = warm if use_warm else fresh_node(c, cap)
+                    dn, calls = wrap_get_segment(node)
+                    known = dn.segment_size is not None
+                    readers, schedule = [], []
+                    for j in range(m):
+                        off, sz = gen_range(rng, size, seg)
+                        readers.append((off, sz, data[off:] if sz is None else data[off:off + sz]))
+                        t = 0
+                        for _ in range(rng.randrange(0, 5)):
+                            t += rng.choice([0, 1, 2, 3, 5, 8, 13, 21, 40, 80, rng.randrange(0, 200)])
+                            if rng.random() < 0.12:
+                                schedule.append((t, j, "stop"))
+                                break
+                            schedule.append((t, j, "pause"))
+                            t += rng.choice([1, 2, 3, 5, 8, 13, 21, 40, 80, 150, 400, rng.randrange(1, 300)])
+                            schedule.append((t, j, "resume"))
+                    case = {"kind": "external", "file": [size, k, n, max_seg], "seed": seed, "warm": use_warm,
+                            "readers": [[o, s_] for (o, s_, _) in readers], "schedule": [list(a) for a in schedule]}
+                    cons = [PassiveConsumer() for _ in readers]
+                    for j, (off, sz, want) in enumerate(readers):
+                        d = node.read(cons[j], off, sz)
+                        d.addBoth(lambda r, j=j: setattr(cons[j], "result", r if r is not None else True))
+                    finished = drive(rt, cons, schedule)
+                    from twisted.python.failure import Failure
+                    for j, (off, sz, want) in enumerate(readers):
+                        cj = cons[j]
+                        got = b"".join(cj.chunks)
+                        r = cj.result
+                        if cj.stopped:
+                            ctx.count("external:stopped")
+                            if not want.startswith(got):
+                                ctx.violation("a stopped reader received bytes that are not a prefix of its slice", case,
+                                              "external-stopped-not-prefix", {"reader": j})
+                            if not (isinstance(r, Failure) and r.check(DownloadStopped)):
+                                ctx.violation("a stopped read did not end with DownloadStopped", case, "external-stopped-result",
+                                              {"reader": j, "result": repr(r)[:200]})
+                        else:
+                            ctx.count("external:completed")
+                            if r is None:
+                                ctx.violation("a reader paused/resumed from outside write() never finished", case,
+                                              "external-live-hang", {"reader": j, "got_len": len(got), "want_len": len(want)})
+                            elif isinstance(r, Failure):
+                                ctx.violation("a reader paused/resumed from outside write() (or a reader beside it) failed", case,
+                                              "external-live-failed-" + r.type.__name__,
+                                              {"reader": j, "err": repr(r.value)[:200], "got_len": len(got), "want_len": len(want)})
+                            elif got != want:
+                                ctx.violation("a reader paused/resumed from outside write() did not receive its own slice", case,
+                                              "external-wrong-slice", {"reader": j, "got_len": len(got), "want_len": len(want)})
+                            elif cj.producer is not None and not cj.unregistered:
+                                ctx.violation("producer never unregistered", case, "external-not-unregistered", {"reader": j})
+                        if want and not isinstance(r, Failure) or (want and cj.stopped):
+                            plines.append("plan %d %d %d %d %d %d %s" % (size, k, seg, -(-min(size, defmax) // k) * k,
+                                                                         1 if known else 0, off, "N" if sz is None else sz))
+                            pimpl.append((cj.stopped, [len(x) for x in cj.chunks]))
+                            pmetas.append(dict(case, reader=j))
+                        ctx.case(("E", fi, ei, j, off, sz, repr(schedule), seed) if want else None)
+                    if not finished:
+                        ctx.count("external:drive-gave-up")
+                    ctx.count("external:readers=%d" % m)
+                    ctx.count("external:actions", sum(cj.actions for cj in cons))
             finally:
                 g.close()
     model = ctx.model(lines)
